@@ -15,6 +15,7 @@ def parseOps (toks : List String) : Option (List (Op Nat)) :=
         | some k => (go (next + k) ts).map (fun r => Op.append (List.range' next k) :: r)
         | none => none
       | ["t"] => (go next ts).map (Op.take :: ·)
+      | ["ts"] => (go next ts).map (Op.take :: ·)
       | ["r"] => (go next ts).map (Op.reset :: ·)
       | ["c"] => (go next ts).map (Op.clear :: ·)
       | ["l"] => (go next ts).map (Op.len :: ·)
@@ -34,7 +35,16 @@ def showOut : Out Nat → String
 def handlePool (n : Nat) (ops : String) : String :=
   match parseOps ((ops.splitOn " ").filter (· ≠ "")) with
   | none => "error:bad-op"
-  | some os => " ".intercalate ((run ({ nres := n } : Pool Nat) os).2.map showOut)
+  | some os =>
+    let toks := (ops.splitOn " ").filter (· ≠ "")
+    let outs := (run ({ nres := n } : Pool Nat) os).2
+    -- `ts` = a take whose slice is summarised (start, length, first, last)
+    " ".intercalate ((List.zip toks outs).map (fun p =>
+      match p.1, p.2 with
+      | "ts", .slice s xs =>
+          let sh := fun (o : Option Nat) => match o with | some v => toString v | none => "_"
+          s!"T{s}:{xs.length}:{sh xs.head?}:{sh xs.getLast?}"
+      | _, o => showOut o))
 
 /-- lock stress: `threads iters` — the model runs each thread to completion in turn (any schedule
     gives the same final count by `c15_lock_no_lost_update`) -/
@@ -76,10 +86,28 @@ def handleMatcherRuns (batches : List Nat) : String :=
   let n := batches.sum
   s!"matched={got.length} exact={if got == List.range n then 1 else 0} index_errors={idxErr}"
 
+/-- the Header widget over the pool: a draw shows exactly the reserved items (`c15_header`), one per row, and asks for that height -/
+def handleHeader (n : Nat) (ops : String) : String :=
+  let toks := (ops.splitOn " ").filter (· ≠ "")
+  let rec go (p : Pool Nat) (next : Nat) : List String → List String
+    | [] => []
+    | t :: ts =>
+      match t.splitOn ":" with
+      | ["a", k] =>
+        let k := k.toNat?.getD 0
+        "u" :: go (p.append (List.range' next k)).1 (next + k) ts
+      | ["c"] => "u" :: go p.clear next ts
+      | ["d"] =>
+        let r := p.reserved
+        s!"d{r.length}:{if r.isEmpty then "_" else ",".intercalate (r.map toString)}" :: go p next ts
+      | _ => ["error:bad-op"]
+  " ".intercalate (go ({ nres := n } : Pool Nat) 0 toks)
+
 def answer (case impl : String) : String :=
   let m :=
     match case.splitOn "|" with
     | ["P", n, ops] => handlePool (n.toNat?.getD 0) ops
+    | ["H", n, ops] => handleHeader (n.toNat?.getD 0) ops
     | ["L", t, k] => handleLock (t.toNat?.getD 0) (k.toNat?.getD 0)
     | ["X", n, c] => handleOverlap (n.toNat?.getD 0) (c.toNat?.getD 1)
     | ["M", bs] => handleMatcherRuns (decNats bs)
